@@ -115,7 +115,17 @@ func (t *Interface) Resolve(field *Field, args map[string]interface{}) (result i
 	case descriptionStr:
 		result = t.Desc
 	case fieldsStr:
-		result = &t.fields
+		if includeDep, _ := args[includeDeprecatedStr].(bool); includeDep {
+			result = &t.fields
+		} else {
+			list := fieldList{dict: map[string]*FieldDef{}}
+			for _, f := range t.fields.list {
+				if !f.isDeprecated() {
+					_ = list.add(f)
+				}
+			}
+			result = &list
+		}
 	case possibleTypesStr:
 		result = t.possibleTypes()
 	case interfacesStr, enumValuesStr, inputFieldsStr, ofTypeStr:
